@@ -252,3 +252,7 @@ REQUIRED_THEOREMS["C04"] += ["C04_valid_uUpdateSeg", "C04_valid_step", "C04_vali
                              "C04_valid_pUpdSeg", "C04_valid_uUpdateAttrs", "C04_valid_step_hist_false"]
 REQUIRED_THEOREMS["C05"] += ["C05_frame_updateSeg"]
 REQUIRED_THEOREMS["C07"] += ["C07_valid_step", "C07_valid_step_all", "C07_shape_step", "C07_valid_reading"]
+REQUIRED_THEOREMS["C01"] += ["C01_common_equivalence", "C01_prim_addEdge_obs", "C01_prim_delEdge_obs", "C01_prim_updTid_obsW",
+                             "C01_prims_common", "C01_group_common", "C01_edgeInv_common", "C01_obligation_common"]
+REQUIRED_THEOREMS["C03"] += ["C03_valid_congr_obs", "C03_valid_congr_E", "C03_invariants_congr_obs", "C03_note_bookOK_needs_max",
+                             "C03_note_measOK_needs_segOK"]
